@@ -16,6 +16,8 @@ corresponding `py_*` function of coq/Num/PyNum.v, which carries CPython's dynami
 Anything else raises Unsupported, and the caller treats that as a broken tie (never silence).
 """
 import ast
+import warnings
+warnings.filterwarnings("ignore")
 
 COQ_KEYWORDS = set()
 
